@@ -629,6 +629,12 @@ func parseFuncHeader(rest string) (*funcContract, error) {
 	// closures: "Outer$1(params) (results)" - '$' is not a Go identifier char
 	src := rest
 	clo := ""
+	// a function of another (standard library) package: "io.Copy(params) (results)"
+	ext := ""
+	if m := regexp.MustCompile(`^([a-z][A-Za-z0-9_]*)\.([A-Za-z_][A-Za-z0-9_]*)(~callers)?\(`).FindStringSubmatch(src); m != nil {
+		ext = m[1] + "."
+		src = src[len(m[1])+1:]
+	}
 	if m := regexp.MustCompile(`^((\([^)]*\)\s*)?[A-Za-z_][A-Za-z0-9_]*)@([A-Za-z_][A-Za-z0-9_]*(\.[A-Za-z_][A-Za-z0-9_]*)?)`).FindStringSubmatch(src); m != nil {
 		clo = "@" + m[3]
 		src = m[1] + src[len(m[0]):]
@@ -641,12 +647,6 @@ func parseFuncHeader(rest string) (*funcContract, error) {
 	if m := regexp.MustCompile(`^((\([^)]*\)\s*)?[A-Za-z_][A-Za-z0-9_]*)~callers`).FindStringSubmatch(src); m != nil {
 		clo = "~callers"
 		src = m[1] + src[len(m[0]):]
-	}
-	// a function of another (standard library) package: "io.Copy(params) (results)"
-	ext := ""
-	if m := regexp.MustCompile(`^([a-z][A-Za-z0-9_]*)\.([A-Za-z_][A-Za-z0-9_]*)\(`).FindStringSubmatch(src); m != nil {
-		ext = m[1] + "."
-		src = src[len(m[1])+1:]
 	}
 	f, err := parser.ParseFile(token.NewFileSet(), "hdr.go", "package p\nfunc "+src+"\n", 0)
 	if err != nil {
